@@ -233,8 +233,12 @@ impl WTClient {
                 available_slots,
                 receipt,
             ) {
-                // DISCUSS: It may be nice to independently compute the slots and compare
-                Ok(_) => tower.available_slots = available_slots,
+                Ok(_) => {
+                    // DISCUSS: It may be nice to independently compute the slots and compare
+                    tower.available_slots = available_slots;
+                    // An earlier rejection of this appointment by the tower is superseded by the receipt
+                    tower.invalid_appointments.remove(&locator);
+                }
                 Err(e) => log::warn!(
                     "Appointment receipt for {locator} not stored for {tower_id}. Error: {e:?}"
                 ),
@@ -284,7 +288,22 @@ impl WTClient {
     }
 
     /// Adds an invalid appointment to the tower record.
+    ///
+    /// An appointment the tower has already accepted (we hold its signed receipt) stays accepted: a later rejection of the same
+    /// data (e.g. of a revocation lightningd notified twice) is not recorded.
     pub fn add_invalid_appointment(&mut self, tower_id: TowerId, appointment: &Appointment) {
+        if self
+            .dbm
+            .load_appointment_receipt(tower_id, appointment.locator)
+            .is_some()
+        {
+            log::warn!(
+                "{tower_id} rejected {}, which it had accepted before. Keeping the receipt",
+                appointment.locator
+            );
+            return;
+        }
+
         if let Some(tower) = self.towers.get_mut(&tower_id) {
             tower.invalid_appointments.insert(appointment.locator);
 
